@@ -1584,12 +1584,12 @@ class Counter(object):
         self.counters = context.counters
 
     def addtocounter(self, other):
+        # Only stepping a counter resets the counters within it
         self.value += int(other)
-        self.resetcounters()
 
     def setcounter(self, other):
+        # Only stepping a counter resets the counters within it
         self.value = int(other)
-        self.resetcounters()
 
     def stepcounter(self):
         self.value += 1
